@@ -612,7 +612,7 @@ def certainly_raised_for_empty_list(prog, q, self_len=None, errors=("TypeError",
     keys = {KEY, ("call", ("attr", SELF, "_check_duplicate"), (KEY,), ())}
     selfs = {SELF, ("attr", SELF, "_underlying")}
     LISTY = {"list", "Iterable", "Sequence", "Sized", "Collection", "Container", "Reversible", "MutableSequence", "object"}
-    if key_kind == "untyped-vector":          # Vector([]): a vector without a dtype and without elements
+    if key_kind in ("untyped-vector", "typed-bool-vector"):   # Vector([]) without a dtype / Vector([], dtype=bool): no elements
         LISTY = {"Vector", "Iterable", "Sized", "Collection", "Container", "object"}
     NONE_T = ("const", "NoneType", None)
 
@@ -622,7 +622,7 @@ def certainly_raised_for_empty_list(prog, q, self_len=None, errors=("TypeError",
 
     def val(t):
         """abstract value: ('coll', frozenset|tuple) for a known collection, ('k', python value), or None (unknown)"""
-        if t in keys:
+        if t in keys or (t[0] == "attr" and t[2] == "_underlying" and t[1] in keys):
             return ("coll", ())
         if t[0] == "ifexp":                      # (a rebound key: key = () if <it addresses nothing> else key)
             r = truth(t[1])
@@ -698,6 +698,16 @@ def certainly_raised_for_empty_list(prog, q, self_len=None, errors=("TypeError",
             return t[1] == "Is"
         if key_kind == "untyped-vector" and is_key_schema(t):
             return False                       # (truth value of the missing dtype)
+        if key_kind == "typed-bool-vector":
+            if t[0] == "cmp" and t[1] in ("Is", "IsNot") and is_key_schema(t[2]) and t[3] == NONE_T:
+                return t[1] == "IsNot"
+            if is_key_schema(t):
+                return True
+            if t[0] == "cmp" and t[1] in ("Eq", "Is", "NotEq", "IsNot") and t[2][0] == "attr" and t[2][2] == "kind" and is_key_schema(t[2][1]) \
+                    and t[3][0] == "name":
+                return (t[3][1] == "bool") == (t[1] in ("Eq", "Is"))
+            if t[0] == "attr" and t[2] == "nullable" and is_key_schema(t[1]):
+                return False
         if t[0] == "cmp":
             a_, b_ = val(t[2]), val(t[3])
             if a_ is None or b_ is None:
@@ -733,16 +743,20 @@ def _empty_list_mask(ctx) -> None:
     prog = ctx.prog
     for q in ("vector.Vector.__getitem__", "table.Table.__getitem__"):
         f = prog.func(q)
-        n_r, refused = 0, []
+        n_r, refused, which = 0, [], []
         # (on tables the same row selection is applied to every column alike: what every column accepts - the empty list, the
         #  untyped empty vector Vector([]) a mask / index vector computed from no rows comes out as - the table accepts too)
-        for kind in ("list", "untyped-vector"):
-            for n_self in (0, 3):
+        for kind in ("list", "untyped-vector", "typed-bool-vector"):
+            for n_self in ((0,) if kind == "typed-bool-vector" else (0, 3)):      # (Vector([], dtype=bool): the mask of an empty vector / table)
                 n2, r2 = certainly_raised_for_empty_list(prog, q, self_len=n_self, errors=("TypeError", "ValueError"), key_kind=kind)
                 n_r, refused = n_r + n2, refused + r2
+                if r2 and not which:
+                    which.append({"list": "the empty list []", "untyped-vector": "the untyped empty vector Vector([])",
+                                  "typed-bool-vector": "the empty boolean mask Vector([], dtype=bool) (what a comparison on empty data returns)"}[kind]
+                                 + f" on a {'vector' if q.startswith('vector.') else 'table'} of {n_self} row(s)")
         ctx.ob("d.dispatch-exhaustive", f, "empty-list-mask", not refused,
                f"{n_r} raise(s) judged, none certainly reached by key = []", (refused[0].node if refused else f.node),
-               message=f"{q}: the empty list certainly reaches a refusal (line {getattr(refused[0].node, 'lineno', 0) if refused else 0}): a list "
+               message=f"{q}: {which[0] if which else 'an empty key'} certainly reaches a refusal (line {getattr(refused[0].node, 'lineno', 0) if refused else 0}): a list "
                        f"is taken for a mask only when the set of its element types EQUALS {{bool}}, which [] does not (mask = [x > 0 for x in "
                        f"col]; col[mask] raises SerifTypeError exactly when col is empty), or [] - the index list of no position - is refused "
                        f"as a mask of the wrong length on a non-empty vector")
